@@ -472,7 +472,55 @@ func (m c05) Case(c *Ctx, r *RNG) {
 	m.attack(c, s, schema, []byte(`{"data":null,"included":[null]}`), "null-element")
 }
 
+// c05named has attribute fields of user-defined types. BuildType refuses it today; a library that accepts such
+// fields declares them in the schema with a kind (string, *int, ...), and an unmarshaled resource must then hold
+// exactly that Go type.
+type c05named struct {
+	ID    string      `json:"id" api:"named"`
+	Email namedString `json:"email" api:"attr"`
+	Age   *namedInt   `json:"age" api:"attr"`
+	Flag  namedBool   `json:"flag" api:"attr"`
+	Plain string      `json:"plain" api:"attr"`
+}
+
+func (m c05) namedAttrTypes(c *Ctx) {
+	c.Name = "attribute-fields-of-defined-types"
+	var typ jsonapi.Type
+	var err error
+	if pi := Guard(func() { typ, err = jsonapi.BuildType(c05named{}) }); pi != nil {
+		c.Violate("panic@"+pi.Frame+"/"+panicClass(pi.Val)+"/BuildType-defined-types", "%s", pi)
+		return
+	}
+	if err != nil {
+		c.Count("defined_attr_types_refused_by_buildtype")
+		return
+	}
+	c.Count("defined_attr_types_accepted_by_buildtype")
+	schema := &jsonapi.Schema{}
+	if err := schema.AddType(typ); err != nil {
+		return
+	}
+	ts := TypeSpec{Name: typ.Name, Wrapped: true}
+	for _, n := range sortedKeys(typ.Attrs) {
+		a := typ.Attrs[n]
+		if a.Type < KString || a.Type > KBytes {
+			continue // C20 judges a built type with an invalid kind
+		}
+		ts.Attrs = append(ts.Attrs, AttrSpec{Name: a.Name, Kind: a.Type, Null: a.Nullable})
+	}
+	s := &SchemaSpec{Types: []TypeSpec{ts}}
+	for _, in := range []string{
+		`{"data":{"id":"1","type":"named","attributes":{"email":"a@b","age":5,"flag":true,"plain":"p"}}}`,
+		`{"data":{"id":"1","type":"named","attributes":{"email":"","age":null}}}`,
+		`{"data":[{"id":"1","type":"named","attributes":{"age":7}}]}`,
+		`{"id":"1","type":"named","attributes":{"email":"x","flag":false}}`,
+	} {
+		m.attack(c, s, schema, []byte(in), "defined-types")
+	}
+}
+
 func (m c05) Directed(c *Ctx) {
+	m.namedAttrTypes(c)
 	t := genAllKindsType("all", false)
 	tw := genAllKindsType("allw", true)
 	t.Rels = []RelSpec{{Name: "one", ToOne: true, ToType: "allw"}, {Name: "many", ToType: "all"}}
